@@ -2,13 +2,14 @@ import MayVerif.Proof.Io.Inv
 namespace MayVerif.Io
 
 set_option maxHeartbeats 8000000 in
-theorem inv4_kstep (st st' : St) (k : Kt) (pc : KPc) (e : Env) (h : Inv1 st) (h4 : Inv4 st)
+theorem inv4_kstep (st st' : St) (k : Kt) (pc : KPc) (e : Env) (hc : Cfg st) (h : Inv1 st) (h4 : Inv4 st)
     (hpc : st.kpc k = pc) (hs : kstep st k pc e = some st') : Inv4 st' := by
   prep4
   have hk0 := k0 k; have hlt := lt k; have hwt := wt k; have hlk := lk k; have hwk := wk k
   cases pc with
   | off => simp [kstep] at hs
   | start s c r => simp [hpc, kTok, kHolds] at hk0 hlt hwt; crunch
+  | arm s c r => simp [hpc, kTok, kHolds] at hk0 hlt hwt; crunch
   | set s c r t => simp [hpc, kTok, kHolds] at hk0 hlt hwt; crunch
   | store s c r => simp [hpc, kTok, kHolds] at hk0 hlt hwt; crunch
   | load s c r => simp [hpc, kTok, kHolds] at hk0; crunch
@@ -19,6 +20,7 @@ theorem inv4_kstep (st st' : St) (k : Kt) (pc : KPc) (e : Env) (h : Inv1 st) (h4
   | xor c => simp [hpc, kTok, kHolds] at hk0; crunch
   | xio c => simp [hpc, kTok, kHolds] at hk0; crunch
   | xtake s => simp [hpc, kTok, kHolds] at hk0; crunch
+  | xDis s c => simp [hpc, kTok, kHolds] at hk0 hlk hwk; crunch
   | reg0 s c r => simp [hpc, kTok, kHolds] at hk0 hlt hwt; crunch
   | chk2 s c => simp [hpc, kTok, kHolds] at hk0; crunch
   | own s => simp [hpc, kTok, kHolds] at hk0; crunch
